@@ -21,8 +21,9 @@ Configs == [A |-> [base |-> "A", default |-> 1, sets |-> <<1, 2>>],
             D |-> [base |-> "noadmin", default |-> 1, sets |-> <<1>>],   \* loads, but its directory fails the check
             E |-> [base |-> "A", default |-> 1, sets |-> <<1, 3>>],      \* A's directory, but the administrator's set is no longer configured
             F |-> [base |-> "B", default |-> 3, sets |-> <<3>>],         \* the same for B's directory
-            G |-> [base |-> "stray", default |-> 1, sets |-> <<1, 2>>]]  \* a directory with a stray file
-Loadable == {"A", "B", "C"}
+            G |-> [base |-> "stray", default |-> 1, sets |-> <<1, 2>>],  \* a directory with a stray file
+            H |-> [base |-> "A", default |-> 2, sets |-> <<2, 3>>]]      \* A's directory with set 1 retired (its records become unsupported)
+Loadable == {"A", "B", "C", "H"}
 
 VARIABLES cur, disk, l
 vars == <<cur, disk, l>>
